@@ -194,7 +194,7 @@ theorem SiteAt.dropRoot {f : Forest} {q : Nat} {v : Value} {L : List HTree} (s :
       obtain ⟨m1, _⟩ := nodup_mid nd
       have : f.get? k.handle = some k := by
         rw [Forest.get?_eq, hAB]
-        exact findList?_mid (m1 _ (handle_mem_handles k))
+        exact findList?_mid (m1 _ (fs_handle_mem_handles k))
       rw [hkc, hc] at this
       have := Option.some.inj this
       subst this
